@@ -1,11 +1,13 @@
 // C19 — init segments built through the API are consistent and self-describing.
 //
-// A case is a list of track operations (AddEmptyTrack + the matching Set*Descriptor) drawn first and then
-// interpreted by the oracle: after every step the tree is checked (track ids 1..n, one trex per track, next
-// track id, handler / media header / language rule, sample entry against what was supplied), encoded, compared
-// with Size() box by box, decoded (tree deep-equal, bytes of the re-encoding equal, recognised as fragmented
-// init) and cross-checked with the harness' own reader (fragbuild.Read + a raw stsd parser). At the end a
-// single-track and a multi-track fragment carrying one sample per track are appended and read back.
+// A case is a list of tracks (AddEmptyTrack arguments, one or two descriptors), the order of the AddEmptyTrack and
+// Set*Descriptor calls (tracks described late, descriptors set twice, tracks never described) and a fragment
+// history; all of it is drawn first and then interpreted by the oracle: after every step the tree is checked (track
+// ids 1..n, one trex per track, next track id, handler / media header / language rule, sample entries against what
+// was supplied), encoded, compared with Size() box by box, decoded (tree deep-equal, bytes of the re-encoding equal,
+// recognised as fragmented init) and cross-checked with the harness' own reader (fragbuild.Read + a raw stsd
+// parser). At the end fragments are created for the track ids, collected in media segments, filled with samples in
+// an interleaved order, encoded behind the init and read back (library and own reader).
 package c19
 
 import (
@@ -45,7 +47,17 @@ func init() {
 
 func TestReplay(t *testing.T) { harness.ReplayPath(t) }
 
-type stats struct{ skipped map[string]int64 }
+type stats struct {
+	skipped  map[string]int64 // known-defect switches that silenced a relation
+	observed map[string]bool  // which of several admissible behaviours the library showed (evidence only)
+}
+
+func (st *stats) note(what string) {
+	if st.observed == nil {
+		st.observed = map[string]bool{}
+	}
+	st.observed[what] = true
+}
 
 // avoid reports whether the oracle relation guarded by the named known-defect switch is to be skipped.
 func (c *initCase) avoid(st *stats, name string) bool {
@@ -90,6 +102,38 @@ func hexes(h []harness.HexBytes) [][]byte {
 // ---------------------------------------------------------------------------------------------
 // the interpreter
 
+// model: what the calls made so far amount to.
+type model struct {
+	n       int           // tracks added
+	applied [][]*descSpec // per track: the descriptors set on it, in call order (codec "none": no call exists)
+}
+
+func validDesc(d *descSpec, mediaType string) bool {
+	class := map[string]string{"avc": "vide", "hevc": "vide", "aac": "soun", "ac3": "soun", "ec3": "soun", "stpp": "subt", "wvtt": "text"}
+	switch d.Codec {
+	case "none":
+		return true
+	case "avc", "hevc":
+		if len(d.SPS) == 0 || len(d.SPS[0]) < 4 || (!d.IncludePS && (d.SampleEntry == "avc1" || d.SampleEntry == "hvc1")) {
+			return false // the documented precondition of the video descriptors
+		}
+		if d.Codec == "hevc" && len(d.PTL) != 12 {
+			return false
+		}
+	case "ac3":
+		if d.Dac3 == nil {
+			return false
+		}
+	case "ec3":
+		if d.Dec3 == nil || len(d.Dec3.Subs) == 0 {
+			return false
+		}
+	}
+	// the descriptor matches the media type (the handler class; "stpp"/"wvtt" media types are subtitle/text tracks)
+	want, ok := class[d.Codec]
+	return ok && want == handlerFor[mediaType]
+}
+
 func evalInit(c *initCase, st *stats) *harness.Fail {
 	n := len(c.Ops)
 	if n == 0 || c.SingleIdx < 0 || c.SingleIdx >= n {
@@ -100,34 +144,61 @@ func evalInit(c *initCase, st *stats) *harness.Fail {
 		if _, ok := handlerFor[op.MediaType]; !ok || len(op.Lang) < 2 || op.Timescale == 0 || len(op.Sample.Data) == 0 {
 			return harness.Failf("harness|c19|bad-case", "op %d outside the domain", i)
 		}
-		if (op.Codec == "avc" || op.Codec == "hevc") && (len(op.SPS) == 0 || (!op.IncludePS && (op.SampleEntry == "avc1" || op.SampleEntry == "hvc1"))) {
-			return harness.Failf("harness|c19|bad-case", "op %d: video op violates the documented precondition", i)
+		if !validDesc(&op.descSpec, op.MediaType) || (op.Alt != nil && (op.Alt.Codec == "none" || !validDesc(op.Alt, op.MediaType))) {
+			return harness.Failf("harness|c19|bad-case", "op %d: descriptor violates the documented precondition or does not match the media type", i)
 		}
+	}
+	hist := c.history()
+	added, last := 0, 0
+	for i, s := range hist {
+		switch {
+		case s.Op == "add" && s.Track == added && !s.Alt:
+			added++
+		case s.Op == "set" && s.Track >= 0 && s.Track < added && (!s.Alt || c.Ops[s.Track].Alt != nil):
+		default:
+			return harness.Failf("harness|c19|bad-case", "history step %d (%+v) is not a call sequence on %d added tracks", i, s, added)
+		}
+		last = i
+	}
+	if added != n {
+		return harness.Failf("harness|c19|bad-case", "history adds %d of %d tracks", added, n)
 	}
 	init := mp4.CreateEmptyInit()
 	if init.Moov == nil || init.Moov.Mvhd == nil || init.Moov.Mvex == nil || init.Ftyp == nil {
 		return harness.Failf("C19|CreateEmptyInit|ftyp/moov/mvhd/mvex missing", "%+v", init)
 	}
-	for i := range c.Ops {
-		op := &c.Ops[i]
-		init.AddEmptyTrack(op.Timescale, op.MediaType, op.Lang)
-		if f := checkState(c, st, init, i+1, i, false); f != nil {
+	m := &model{applied: make([][]*descSpec, n)}
+	for i, s := range hist {
+		op := &c.Ops[s.Track]
+		if s.Op == "add" {
+			init.AddEmptyTrack(op.Timescale, op.MediaType, op.Lang)
+			m.n++
+			if len(init.Moov.Traks) != m.n {
+				return harness.Failf("C19|moov|number of traks differs from number of AddEmptyTrack calls", "%d after %d calls", len(init.Moov.Traks), m.n)
+			}
+		} else {
+			d := &op.descSpec
+			if s.Alt {
+				d = op.Alt
+			}
+			if err := setDescriptor(init.Moov.Traks[s.Track], d); err != nil {
+				return harness.Failf("C19|Set"+d.Codec+"Descriptor|error on valid input", "track %d: %v", s.Track+1, err)
+			}
+			if d.Codec != "none" {
+				m.applied[s.Track] = append(m.applied[s.Track], d)
+			}
+		}
+		if f := checkState(c, st, init, m, i == last); f != nil {
 			return f
 		}
-		if len(init.Moov.Traks) != i+1 {
-			return harness.Failf("C19|moov|number of traks differs from number of AddEmptyTrack calls", "%d after %d calls", len(init.Moov.Traks), i+1)
-		}
-		if err := setDescriptor(init.Moov.Traks[i], op); err != nil {
-			return harness.Failf("C19|Set"+op.Codec+"Descriptor|error on valid input", "track %d: %v", i+1, err)
-		}
-		if f := checkState(c, st, init, i+1, i+1, i == n-1); f != nil {
-			return f
-		}
+	}
+	if c.Frags != nil {
+		return checkFragPlan(c, st, init)
 	}
 	return checkFragments(c, init)
 }
 
-func setDescriptor(trak *mp4.TrakBox, op *trackOp) error {
+func setDescriptor(trak *mp4.TrakBox, op *descSpec) error {
 	switch op.Codec {
 	case "avc":
 		return trak.SetAVCDescriptor(op.SampleEntry, hexes(op.SPS), hexes(op.PPS), op.IncludePS)
@@ -156,9 +227,9 @@ func libDec3(d *dec3Fields) *mp4.Dec3Box {
 	return b
 }
 
-// checkState: n tracks added, the first `described` of them have their sample description.
-func checkState(c *initCase, st *stats, init *mp4.InitSegment, n, described int, final bool) *harness.Fail {
-	if f := checkTree(c, st, init.Moov, n, described, "built"); f != nil {
+// checkState: the init segment after the calls summarised by m.
+func checkState(c *initCase, st *stats, init *mp4.InitSegment, m *model, final bool) *harness.Fail {
+	if f := checkTree(c, st, init.Moov, m, "built"); f != nil {
 		return f
 	}
 	// encode; Size() against the encoded length, for the segment and box by box
@@ -202,7 +273,7 @@ func checkState(c *initCase, st *stats, init *mp4.InitSegment, n, described int,
 	if kp, p, m := treeDiff(reflect.ValueOf(init), reflect.ValueOf(file.Init), ignore); m != "" {
 		return harness.Failf("C19|DecodeFile|decoded tree differs at "+kp, "%s: built / decoded = %s", p, m)
 	}
-	if f := checkTree(c, st, file.Init.Moov, n, described, "decoded"); f != nil {
+	if f := checkTree(c, st, file.Init.Moov, m, "decoded"); f != nil {
 		return f
 	}
 	buf2 := bytes.Buffer{}
@@ -216,7 +287,7 @@ func checkState(c *initCase, st *stats, init *mp4.InitSegment, n, described int,
 			return harness.Failf("C19|InitSegment.Info|dump of built and decoded init differ", "err %v / %v", ea, eb)
 		}
 	}
-	return checkRaw(c, st, enc, n, described)
+	return checkRaw(c, st, enc, m)
 }
 
 // checkSizes compares Size() of every box of the library's tree with the size found in the encoded bytes.
@@ -249,11 +320,91 @@ func checkSizes(lib []mp4.Box, raw []*boxwalk.Box, path string) *harness.Fail {
 	return nil
 }
 
+// Child boxes of a sample entry. The property demands the codec configuration supplied, not that nothing else is in
+// the entry: the configuration box must be there exactly once (ISO/IEC 14496-15 5.4.2.1 / 8.4.1.1, ETSI TS 102 366
+// F.3 / F.5, ISO/IEC 14496-30 7.5: one avcC / hvcC / dac3 / dec3 / vttC), every other child must be one of the
+// optional boxes that the defining specification lists for that kind of sample entry (14496-12 8.5.2 btrt, 12.1.3
+// clap / pasp / colr ..., 12.2.3 chnl / dmix / srat, 14496-15 m4ds, 14496-30 vlab / mime). An earlier version
+// of this check demanded "exactly one child" ("no child" for stpp), which the property does not state.
+var optionalChildren = map[string][]string{
+	"visual": {"btrt", "pasp", "clap", "colr", "clli", "mdcv", "ccst", "auxi", "m4ds"},
+	"audio":  {"btrt", "chnl", "dmix", "srat"},
+	"wvtt":   {"btrt", "vlab"},
+	"stpp":   {"btrt", "mime"},
+}
+
+func childRule(children []string, conf, kind string) string {
+	nConf := 0
+	for _, t := range children {
+		if t == conf && conf != "" {
+			nConf++
+			continue
+		}
+		ok := false
+		for _, o := range optionalChildren[kind] {
+			ok = ok || o == t
+		}
+		if !ok {
+			return fmt.Sprintf("child box %q is not defined for a %s sample entry (children %v)", t, kind, children)
+		}
+	}
+	if conf != "" && nConf != 1 {
+		return fmt.Sprintf("%d %s boxes (children %v)", nConf, conf, children)
+	}
+	return ""
+}
+
+func boxTypes(bs []mp4.Box) []string {
+	var out []string
+	for _, b := range bs {
+		out = append(out, b.Type())
+	}
+	return out
+}
+
+// pointerClass: the StsdBox field that points to a sample entry of the codec (the latest one added wins).
+func pointerClass(codec string) string {
+	return map[string]string{"avc": "AvcX", "hevc": "HvcX", "aac": "Mp4a", "ac3": "AC3", "ec3": "EC3", "wvtt": "Wvtt", "stpp": "Stpp"}[codec]
+}
+
+// wantedEntries: the sample entries a track must have after the Set*Descriptor calls `applied`, given that the stsd
+// holds `have` entries. One call: one entry. Several calls on the same track: SetAACDescriptor / SetAC3Descriptor /
+// SetEC3Descriptor are documented as "adding" a sample descriptor and SetStppDescriptor as "add stpp box";
+// SetAVCDescriptor / SetHEVCDescriptor / SetWvttDescriptor say "Set" without saying what happens to an entry that
+// is already there. The property only says that the sample entry equals what was supplied, so both readings are
+// admitted: every call added an entry (all of them must then be there, in call order, each equal to its
+// arguments), or the latest call replaced what was there (one entry, equal to the latest arguments). Anything
+// else (an entry lost, duplicated, out of order, entry_count out of step) is a violation.
+func wantedEntries(st *stats, applied []*descSpec, have int) ([]*descSpec, bool) {
+	switch {
+	case have == len(applied):
+		if have > 1 {
+			st.note("second-set-appends-sample-entry")
+		}
+		return applied, true
+	case have == 1 && len(applied) > 1:
+		st.note("second-set-replaces-sample-entry")
+		return applied[len(applied)-1:], true
+	}
+	return nil, false
+}
+
+// lastVideo: the size the tkhd must show: that of the latest video descriptor set on the track.
+func lastVideo(applied []*descSpec) *descSpec {
+	for i := len(applied) - 1; i >= 0; i-- {
+		if applied[i].Codec == "avc" || applied[i].Codec == "hevc" {
+			return applied[i]
+		}
+	}
+	return nil
+}
+
 // checkTree: the relations of the property on a moov tree (built or decoded).
-func checkTree(c *initCase, st *stats, moov *mp4.MoovBox, n, described int, what string) *harness.Fail {
+func checkTree(c *initCase, st *stats, moov *mp4.MoovBox, m *model, what string) *harness.Fail {
 	bad := func(area, rel, format string, a ...interface{}) *harness.Fail {
 		return harness.Failf("C19|"+area+"|"+rel, what+": "+format, a...)
 	}
+	n := m.n
 	if moov.Mvhd == nil || moov.Mvex == nil {
 		return bad("moov", "mvhd or mvex missing", "")
 	}
@@ -262,6 +413,12 @@ func checkTree(c *initCase, st *stats, moov *mp4.MoovBox, n, described int, what
 	}
 	if len(moov.Mvex.Trexs) != n || (n > 0 && moov.Mvex.Trex != moov.Mvex.Trexs[0]) {
 		return bad("mvex", "number of trex boxes differs from number of tracks", "%d trex, %d tracks", len(moov.Mvex.Trexs), n)
+	}
+	// "one trex per track with the same id": the ORDER of the trex boxes inside mvex is not part of the property
+	// (an earlier version of this check demanded trex k to belong to trak k)
+	trexOf := map[uint32][]*mp4.TrexBox{}
+	for _, tx := range moov.Mvex.Trexs {
+		trexOf[tx.TrackID] = append(trexOf[tx.TrackID], tx)
 	}
 	for k := 0; k < n; k++ {
 		op := &c.Ops[k]
@@ -274,14 +431,12 @@ func checkTree(c *initCase, st *stats, moov *mp4.MoovBox, n, described int, what
 		if trak.Tkhd.TrackID != id {
 			return bad("tkhd", "track ids are not 1..n in order", "trak %d has track_ID %d", k, trak.Tkhd.TrackID)
 		}
-		if moov.Mvex.Trexs[k].TrackID != id {
-			return bad("trex", "trex track id differs from the track id", "trex %d has track_ID %d, trak %d", k, moov.Mvex.Trexs[k].TrackID, id)
+		if len(trexOf[id]) != 1 {
+			return bad("trex", "trex track id differs from the track id", "%d trex boxes with track_ID %d", len(trexOf[id]), id)
 		}
-		if tx, ok := moov.Mvex.GetTrex(id); !ok || tx != moov.Mvex.Trexs[k] {
+		trex := trexOf[id][0]
+		if tx, ok := moov.Mvex.GetTrex(id); !ok || tx != trex {
 			return bad("mvex", "GetTrex does not return the track's trex", "track %d", id)
-		}
-		if moov.Mvex.Trexs[k].DefaultSampleDescriptionIndex != 1 {
-			return bad("trex", "default_sample_description_index not 1", "track %d: %d", id, moov.Mvex.Trexs[k].DefaultSampleDescriptionIndex)
 		}
 		if moov.Mvhd.NextTrackID <= id {
 			return bad("mvhd", "next_track_ID not larger than all track ids", "next_track_ID %d, track %d", moov.Mvhd.NextTrackID, id)
@@ -300,6 +455,7 @@ func checkTree(c *initCase, st *stats, moov *mp4.MoovBox, n, described int, what
 		if gotH != wantH && !skipHandler {
 			return bad("hdlr", "handler type does not match the media type", "track %d media type %q: handler %q, want %q", id, op.MediaType, gotH, wantH)
 		}
+		// ISO/IEC 14496-12 8.4.5.1: "Exactly one specific media header shall be present" - this "exactly one" stays
 		wantMH := headerFor(wantH)
 		var mhs []string
 		for _, ch := range mdia.Minf.Children {
@@ -339,26 +495,43 @@ func checkTree(c *initCase, st *stats, moov *mp4.MoovBox, n, described int, what
 		}
 		// sample description
 		stsd := mdia.Minf.Stbl.Stsd
-		wantEntries := 0
-		if k < described && op.Codec != "none" {
-			wantEntries = 1
+		if int(stsd.SampleCount) != len(stsd.Children) {
+			return bad("stsd", "entry_count differs from the number of sample entries", "track %d: entry_count %d, %d children", id, stsd.SampleCount, len(stsd.Children))
 		}
-		if int(stsd.SampleCount) != wantEntries || len(stsd.Children) != wantEntries {
-			return bad("stsd", "number of sample entries differs from number of Set*Descriptor calls", "track %d: entry_count %d, %d children, want %d", id, stsd.SampleCount, len(stsd.Children), wantEntries)
+		want, ok := wantedEntries(st, m.applied[k], len(stsd.Children))
+		if !ok {
+			return bad("stsd", "number of sample entries differs from number of Set*Descriptor calls", "track %d: entry_count %d, %d children after %d calls", id, stsd.SampleCount, len(stsd.Children), len(m.applied[k]))
 		}
-		if wantEntries == 1 {
-			if f := checkEntry(c, st, trak, op, what); f != nil {
+		// ISO/IEC 14496-12 8.8.3.1: default_sample_description_index is an index into the stsd (1-based); with an empty
+		// stsd there is nothing it could point to and any value from 1 is as good as another
+		if dsi := trex.DefaultSampleDescriptionIndex; dsi < 1 || (len(want) > 0 && int(dsi) > len(want)) {
+			return bad("trex", "default_sample_description_index is not an index into the stsd", "track %d: %d with %d sample entries", id, dsi, len(want))
+		}
+		for i, d := range want {
+			latest := true // the typed pointer of the stsd must be this entry
+			for _, later := range want[i+1:] {
+				latest = latest && pointerClass(later.Codec) != pointerClass(d.Codec)
+			}
+			if f := checkEntry(c, st, trak, d, stsd.Children[i], latest, what); f != nil {
 				return f
 			}
-		} else if trak.Tkhd.Width != 0 || trak.Tkhd.Height != 0 {
-			return bad("tkhd", "width/height set without video descriptor", "track %d: %#x x %#x", id, trak.Tkhd.Width, trak.Tkhd.Height)
+		}
+		var w, h uint32
+		if v := lastVideo(want); v != nil {
+			w, h = v.Width, v.Height
+		}
+		if uint64(trak.Tkhd.Width) != uint64(w)<<16 || uint64(trak.Tkhd.Height) != uint64(h)<<16 {
+			if w == 0 && h == 0 {
+				return bad("tkhd", "width/height set without video descriptor", "track %d: %#x x %#x", id, trak.Tkhd.Width, trak.Tkhd.Height)
+			}
+			return bad("tkhd", "width/height differ from 16.16 of the SPS-derived size", "track %d: %#x x %#x, generator's model %dx%d", id, uint32(trak.Tkhd.Width), uint32(trak.Tkhd.Height), w, h)
 		}
 	}
 	return nil
 }
 
-// checkEntry: the sample entry of a described track against what was supplied.
-func checkEntry(c *initCase, st *stats, trak *mp4.TrakBox, op *trackOp, what string) *harness.Fail {
+// checkEntry: one sample entry of a track against the arguments of the Set*Descriptor call that made it.
+func checkEntry(c *initCase, st *stats, trak *mp4.TrakBox, op *descSpec, entry mp4.Box, latest bool, what string) *harness.Fail {
 	id := trak.Tkhd.TrackID
 	stsd := trak.Mdia.Minf.Stbl.Stsd
 	bad := func(area, rel, format string, a ...interface{}) *harness.Fail {
@@ -366,27 +539,25 @@ func checkEntry(c *initCase, st *stats, trak *mp4.TrakBox, op *trackOp, what str
 	}
 	var dri uint16
 	wantType := map[string]string{"avc": op.SampleEntry, "hevc": op.SampleEntry, "aac": "mp4a", "ac3": "ac-3", "ec3": "ec-3", "wvtt": "wvtt", "stpp": "stpp"}[op.Codec]
-	if got := stsd.Children[0].Type(); got != wantType {
+	if got := entry.Type(); got != wantType {
 		return bad("stsd", "sample entry type differs from the one requested", "%s, want %s", got, wantType)
 	}
 	switch op.Codec {
 	case "avc", "hevc":
-		vse := stsd.AvcX
+		ptr, conf := stsd.AvcX, "avcC"
 		if op.Codec == "hevc" {
-			vse = stsd.HvcX
+			ptr, conf = stsd.HvcX, "hvcC"
 		}
-		if vse == nil || vse != stsd.Children[0] {
+		vse, ok := entry.(*mp4.VisualSampleEntryBox)
+		if !ok || vse == nil || (latest && ptr != vse) {
 			return bad("stsd", "sample entry pointer not set", "")
 		}
 		dri = vse.DataReferenceIndex
 		if uint32(vse.Width) != op.Width || uint32(vse.Height) != op.Height {
 			return bad("visual sample entry", "width/height differ from the SPS-derived size", "%dx%d, generator's model %dx%d", vse.Width, vse.Height, op.Width, op.Height)
 		}
-		if uint64(trak.Tkhd.Width) != uint64(op.Width)<<16 || uint64(trak.Tkhd.Height) != uint64(op.Height)<<16 {
-			return bad("tkhd", "width/height differ from 16.16 of the SPS-derived size", "%#x x %#x, generator's model %dx%d", uint32(trak.Tkhd.Width), uint32(trak.Tkhd.Height), op.Width, op.Height)
-		}
-		if len(vse.Children) != 1 {
-			return bad("visual sample entry", "child boxes other than the configuration box", "%d children", len(vse.Children))
+		if why := childRule(boxTypes(vse.Children), conf, "visual"); why != "" {
+			return bad("visual sample entry", "child boxes other than the configuration box", "%s", why)
 		}
 		if op.Codec == "avc" {
 			if vse.AvcC == nil {
@@ -431,8 +602,9 @@ func checkEntry(c *initCase, st *stats, trak *mp4.TrakBox, op *trackOp, what str
 			}
 		}
 	case "aac", "ac3", "ec3":
-		ase := map[string]*mp4.AudioSampleEntryBox{"aac": stsd.Mp4a, "ac3": stsd.AC3, "ec3": stsd.EC3}[op.Codec]
-		if ase == nil || ase != stsd.Children[0] {
+		ptr := map[string]*mp4.AudioSampleEntryBox{"aac": stsd.Mp4a, "ac3": stsd.AC3, "ec3": stsd.EC3}[op.Codec]
+		ase, ok := entry.(*mp4.AudioSampleEntryBox)
+		if !ok || ase == nil || (latest && ptr != ase) {
 			return bad("stsd", "sample entry pointer not set", "")
 		}
 		dri = ase.DataReferenceIndex
@@ -485,13 +657,18 @@ func checkEntry(c *initCase, st *stats, trak *mp4.TrakBox, op *trackOp, what str
 		if uint32(ase.SampleRate) != wantRate {
 			return bad("audio sample entry", "sample rate differs from the configuration supplied", "%d, want %d", ase.SampleRate, wantRate)
 		}
-		if ase.SampleSize != 16 || len(ase.Children) != 1 {
-			return bad("audio sample entry", "sample size not 16 or extra child boxes", "samplesize %d, %d children", ase.SampleSize, len(ase.Children))
+		// samplesize: template field of ISO/IEC 14496-12 12.2.3 with default 16, none of the three codecs overrides it
+		conf := map[string]string{"aac": "esds", "ac3": "dac3", "ec3": "dec3"}[op.Codec]
+		if why := childRule(boxTypes(ase.Children), conf, "audio"); ase.SampleSize != 16 || why != "" {
+			return bad("audio sample entry", "sample size not 16 or extra child boxes", "samplesize %d, %s", ase.SampleSize, why)
 		}
 	case "wvtt":
-		w := stsd.Wvtt
-		if w == nil || w != stsd.Children[0] || w.VttC == nil || len(w.Children) != 1 {
-			return bad("wvtt", "sample entry or vttC missing", "")
+		w, ok := entry.(*mp4.WvttBox)
+		if !ok || w == nil || (latest && stsd.Wvtt != w) {
+			return bad("wvtt", "sample entry or vttC missing", "sample entry pointer not set")
+		}
+		if why := childRule(boxTypes(w.Children), "vttC", "wvtt"); w.VttC == nil || why != "" {
+			return bad("wvtt", "sample entry or vttC missing", "%s", why)
 		}
 		dri = w.DataReferenceIndex
 		want := op.VttConfig
@@ -505,8 +682,8 @@ func checkEntry(c *initCase, st *stats, trak *mp4.TrakBox, op *trackOp, what str
 			dri = 1
 		}
 	case "stpp":
-		s := stsd.Stpp
-		if s == nil || s != stsd.Children[0] {
+		s, ok := entry.(*mp4.StppBox)
+		if !ok || s == nil || (latest && stsd.Stpp != s) {
 			return bad("stpp", "sample entry missing", "")
 		}
 		dri = s.DataReferenceIndex
@@ -514,8 +691,8 @@ func checkEntry(c *initCase, st *stats, trak *mp4.TrakBox, op *trackOp, what str
 		if ns == "" {
 			ns = "http://www.w3.org/ns/ttml" // the function's default
 		}
-		if s.Namespace != ns || s.SchemaLocation != op.StppSchema || s.AuxiliaryMimeTypes != op.StppAux || len(s.Children) != 0 {
-			return bad("stpp", "strings differ from those supplied", "%q %q %q, supplied %q %q %q", s.Namespace, s.SchemaLocation, s.AuxiliaryMimeTypes, op.StppNS, op.StppSchema, op.StppAux)
+		if s.Namespace != ns || s.SchemaLocation != op.StppSchema || s.AuxiliaryMimeTypes != op.StppAux || childRule(boxTypes(s.Children), "", "stpp") != "" {
+			return bad("stpp", "strings differ from those supplied", "%q %q %q, supplied %q %q %q (%s)", s.Namespace, s.SchemaLocation, s.AuxiliaryMimeTypes, op.StppNS, op.StppSchema, op.StppAux, childRule(boxTypes(s.Children), "", "stpp"))
 		}
 	}
 	// ISO/IEC 14496-12 8.5.2.2: data_reference_index ranges from 1 to the number of data references (dref has one entry)
@@ -526,7 +703,8 @@ func checkEntry(c *initCase, st *stats, trak *mp4.TrakBox, op *trackOp, what str
 }
 
 // checkRaw: the encoded init read by the harness' own reader and a byte-level parse of the sample descriptions.
-func checkRaw(c *initCase, st *stats, enc []byte, n, described int) *harness.Fail {
+func checkRaw(c *initCase, st *stats, enc []byte, m *model) *harness.Fail {
+	n := m.n
 	p, err := fragbuild.Read(enc)
 	if err != nil {
 		return harness.Failf("C19|independent reader|encoded init not readable", "%v", err)
@@ -538,9 +716,17 @@ func checkRaw(c *initCase, st *stats, enc []byte, n, described int) *harness.Fai
 		return bad("moov", "number of trak/trex boxes differs from number of tracks", "%d trak, %d trex, %d tracks", len(p.Tracks), len(p.Trexs), n)
 	}
 	walked, _ := boxwalk.WalkAll(enc)
-	if mv := boxwalk.Path(walked, "moov", "mvhd"); mv == nil || mv.Size != 108 {
-		return bad("mvhd", "not a version 0 mvhd", "")
-	} else if next := be32(enc[mv.End()-4:]); int(next) <= n {
+	// mvhd: ISO/IEC 14496-12 8.2.2 has two layouts, version 0 (108 bytes) and version 1 (64-bit times, 120 bytes);
+	// next_track_ID is the last field of both. The property does not ask for version 0 (an earlier version of this
+	// check did): any of the two, with the size that belongs to the version byte written.
+	mv := boxwalk.Path(walked, "moov", "mvhd")
+	if mv == nil || mv.End()-mv.PayloadStart() < 4 {
+		return bad("mvhd", "not a version 0 mvhd", "mvhd missing or without payload")
+	}
+	if ver := enc[mv.PayloadStart()]; !(ver == 0 && mv.Size == 108) && !(ver == 1 && mv.Size == 120) {
+		return bad("mvhd", "not a version 0 mvhd", "version %d with %d bytes (version 0: 108, version 1: 120)", ver, mv.Size)
+	}
+	if next := be32(enc[mv.End()-4:]); int64(next) <= int64(n) {
 		return bad("mvhd", "next_track_ID not larger than all track ids", "next_track_ID %d, %d tracks", next, n)
 	}
 	elngs := map[int]string{} // trak index -> elng language
@@ -557,12 +743,16 @@ func checkRaw(c *initCase, st *stats, enc []byte, n, described int) *harness.Fai
 			elngs[ti] = string(pl[4 : len(pl)-1])
 		}
 	}
+	nTrex := map[uint32]int{}
+	for i := range p.Trexs {
+		nTrex[p.Trexs[i].TrackID]++
+	}
 	for k := 0; k < n; k++ {
 		op := &c.Ops[k]
 		id := uint32(k + 1)
 		t := &p.Tracks[k]
-		if t.ID != id || p.Trexs[k].TrackID != id || t.Trex == nil || p.Trexs[k].DescIdx != 1 {
-			return bad("trak/trex", "track ids are not 1..n in order with one trex each", "trak %d: track_ID %d, trex track_ID %d", k, t.ID, p.Trexs[k].TrackID)
+		if t.ID != id || nTrex[id] != 1 || t.Trex == nil || t.Trex.TrackID != id {
+			return bad("trak/trex", "track ids are not 1..n in order with one trex each", "trak %d: track_ID %d, %d trex boxes with that id", k, t.ID, nTrex[id])
 		}
 		if t.Timescale != op.Timescale {
 			return bad("mdhd", "timescale differs from the one supplied", "track %d: %d, supplied %d", id, t.Timescale, op.Timescale)
@@ -589,17 +779,27 @@ func checkRaw(c *initCase, st *stats, enc []byte, n, described int) *harness.Fai
 		if err != nil {
 			return bad("stsd", "malformed", "track %d: %v", id, err)
 		}
-		if k >= described || op.Codec == "none" {
-			if len(ents) != 0 || t.Width != 0 || t.Height != 0 {
+		want, ok := wantedEntries(st, m.applied[k], len(ents))
+		if !ok {
+			if len(m.applied[k]) == 0 {
 				return bad("stsd", "entries without Set*Descriptor call", "track %d: %d entries, tkhd %#x x %#x", id, len(ents), t.Width, t.Height)
 			}
-			continue
+			return bad("stsd", "number of sample entries differs from number of Set*Descriptor calls", "track %d: %d after %d calls", id, len(ents), len(m.applied[k]))
 		}
-		if len(ents) != 1 {
-			return bad("stsd", "number of sample entries differs from number of Set*Descriptor calls", "track %d: %d", id, len(ents))
+		if dsi := t.Trex.DescIdx; dsi < 1 || (len(want) > 0 && int(dsi) > len(want)) {
+			return bad("trak/trex", "default_sample_description_index is not an index into the stsd", "track %d: %d with %d sample entries", id, dsi, len(want))
 		}
-		if f := checkRawEntry(c, st, &ents[0], t, op); f != nil {
-			return f
+		for i, d := range want {
+			if f := checkRawEntry(c, st, &ents[i], t, d); f != nil {
+				return f
+			}
+		}
+		var w, h uint32
+		if v := lastVideo(want); v != nil {
+			w, h = v.Width, v.Height
+		}
+		if uint64(t.Width) != uint64(w)<<16 || uint64(t.Height) != uint64(h)<<16 {
+			return bad("tkhd", "width/height differ from 16.16 of the SPS-derived size", "track %d: %#x x %#x, generator's model %dx%d", id, t.Width, t.Height, w, h)
 		}
 	}
 	return nil
@@ -609,7 +809,7 @@ func be32(b []byte) uint32 {
 	return uint32(b[0])<<24 | uint32(b[1])<<16 | uint32(b[2])<<8 | uint32(b[3])
 }
 
-func checkRawEntry(c *initCase, st *stats, e *rawEntry, t *fragbuild.PTrack, op *trackOp) *harness.Fail {
+func checkRawEntry(c *initCase, st *stats, e *rawEntry, t *fragbuild.PTrack, op *descSpec) *harness.Fail {
 	bad := func(area, rel, format string, a ...interface{}) *harness.Fail {
 		return harness.Failf("C19|encoded "+area+"|"+rel, fmt.Sprintf("track %d (%s): ", t.ID, op.Codec)+format, a...)
 	}
@@ -619,8 +819,11 @@ func checkRawEntry(c *initCase, st *stats, e *rawEntry, t *fragbuild.PTrack, op 
 		if e.Type != op.SampleEntry {
 			return bad("stsd", "sample entry type differs from the one requested", "%s", e.Type)
 		}
-		if uint32(e.Width) != op.Width || uint32(e.Height) != op.Height || uint64(t.Width) != uint64(op.Width)<<16 || uint64(t.Height) != uint64(op.Height)<<16 {
-			return bad("visual sample entry", "width/height differ from the SPS-derived size", "entry %dx%d tkhd %#x x %#x, generator's model %dx%d", e.Width, e.Height, t.Width, t.Height, op.Width, op.Height)
+		if uint32(e.Width) != op.Width || uint32(e.Height) != op.Height {
+			return bad("visual sample entry", "width/height differ from the SPS-derived size", "entry %dx%d, generator's model %dx%d", e.Width, e.Height, op.Width, op.Height)
+		}
+		if why := childRule(e.BoxOrder, map[string]string{"avc": "avcC", "hevc": "hvcC"}[op.Codec], "visual"); why != "" {
+			return bad("visual sample entry", "child boxes other than the configuration box", "%s", why)
 		}
 		if op.Codec == "avc" {
 			got, ref := e.Boxes["avcC"], refAvcC(hexes(op.SPS), hexes(op.PPS), op.IncludePS)
@@ -691,7 +894,8 @@ func checkRawEntry(c *initCase, st *stats, e *rawEntry, t *fragbuild.PTrack, op 
 		if wantRate > 65535 {
 			wantRate = 0
 		}
-		if e.Type != wantType || e.Channels != wantCh || e.SampleRate != wantRate<<16 || e.SampleSize != 16 || len(e.BoxOrder) != 1 {
+		conf := map[string]string{"aac": "esds", "ac3": "dac3", "ec3": "dec3"}[op.Codec]
+		if e.Type != wantType || e.Channels != wantCh || e.SampleRate != wantRate<<16 || e.SampleSize != 16 || childRule(e.BoxOrder, conf, "audio") != "" {
 			return bad("audio sample entry", "type, channel count or sample rate differ from the configuration supplied", "%s channels %d rate %#x size %d children %v, want %s %d %d", e.Type, e.Channels, e.SampleRate, e.SampleSize, e.BoxOrder, wantType, wantCh, wantRate)
 		}
 	case "wvtt":
@@ -699,7 +903,7 @@ func checkRawEntry(c *initCase, st *stats, e *rawEntry, t *fragbuild.PTrack, op 
 		if want == "" {
 			want = "WEBVTT"
 		}
-		if e.Type != "wvtt" || string(e.Boxes["vttC"]) != want || len(e.BoxOrder) != 1 {
+		if e.Type != "wvtt" || string(e.Boxes["vttC"]) != want || childRule(e.BoxOrder, "vttC", "wvtt") != "" {
 			return bad("wvtt", "config differs from the one supplied", "%s %q %v", e.Type, e.Boxes["vttC"], e.BoxOrder)
 		}
 		if dri != 1 && c.avoid(st, "wvtt-data-reference-index-0") {
@@ -710,7 +914,7 @@ func checkRawEntry(c *initCase, st *stats, e *rawEntry, t *fragbuild.PTrack, op 
 		if ns == "" {
 			ns = "http://www.w3.org/ns/ttml"
 		}
-		if e.Type != "stpp" || len(e.Strings) != 3 || e.Strings[0] != ns || e.Strings[1] != op.StppSchema || e.Strings[2] != op.StppAux || len(e.BoxOrder) != 0 {
+		if e.Type != "stpp" || len(e.Strings) != 3 || e.Strings[0] != ns || e.Strings[1] != op.StppSchema || e.Strings[2] != op.StppAux || childRule(e.BoxOrder, "", "stpp") != "" {
 			return bad("stpp", "strings differ from those supplied", "%s %q", e.Type, e.Strings)
 		}
 	}
@@ -817,6 +1021,242 @@ func checkFragments(c *initCase, init *mp4.InitSegment) *harness.Fail {
 	return nil
 }
 
+// checkFragPlan interprets the fragment-building history of the case: fragments are created for track ids of the
+// init (CreateFragment / CreateMultiTrackFragment), attached to media segments (NewMediaSegment[WithoutStyp] +
+// AddFragment) and filled with samples (AddFullSample / AddFullSampleToTrack) in the drawn interleaved order; then
+// everything is encoded behind the init, decoded, and every fragment must give back, for every track of the init,
+// exactly the samples that were added for it (GetFullSamples with the track's trex, and the harness' own reader).
+func checkFragPlan(c *initCase, st *stats, init *mp4.InitSegment) *harness.Fail {
+	p := c.Frags
+	n := len(c.Ops)
+	nf := len(p.Frags)
+	if nf == 0 {
+		return harness.Failf("harness|c19|bad-case", "fragment plan without fragments")
+	}
+	for i, f := range p.Frags {
+		seen := map[int]bool{}
+		for _, k := range f.Tracks {
+			if k < 0 || k >= n || seen[k] {
+				return harness.Failf("harness|c19|bad-case", "fragment %d: tracks %v", i, f.Tracks)
+			}
+			seen[k] = true
+		}
+		if len(f.Tracks) == 0 || (len(f.Tracks) > 1 && !f.Multi) {
+			return harness.Failf("harness|c19|bad-case", "fragment %d: %d tracks, multi %v", i, len(f.Tracks), f.Multi)
+		}
+	}
+	type key struct{ f, k int }
+	frags := make([]*mp4.Fragment, nf)
+	attached := make([]bool, nf)
+	added := map[key][]*sampleSpec{} // samples per (fragment, track) in call order
+	nAdded := make([]int, nf)
+	var segs []*mp4.MediaSegment
+	var fileOrder []int // fragment indices in the order they will appear in the file
+	for i, s := range p.Steps {
+		badStep := func() *harness.Fail {
+			return harness.Failf("harness|c19|bad-case", "fragment history step %d (%+v) is not a valid call", i, s)
+		}
+		if s.Op != "seg" && (s.Frag < 0 || s.Frag >= nf) {
+			return badStep()
+		}
+		switch s.Op {
+		case "seg":
+			if p.Loose {
+				return badStep()
+			}
+			if p.Styp {
+				segs = append(segs, mp4.NewMediaSegment())
+			} else {
+				segs = append(segs, mp4.NewMediaSegmentWithoutStyp())
+			}
+		case "frag":
+			if frags[s.Frag] != nil {
+				return badStep()
+			}
+			spec := &p.Frags[s.Frag]
+			var err error
+			if spec.Multi {
+				ids := make([]uint32, len(spec.Tracks))
+				for j, k := range spec.Tracks {
+					ids[j] = uint32(k + 1)
+				}
+				frags[s.Frag], err = mp4.CreateMultiTrackFragment(c.SeqNr+uint32(s.Frag), ids)
+			} else {
+				frags[s.Frag], err = mp4.CreateFragment(c.SeqNr+uint32(s.Frag), uint32(spec.Tracks[0]+1))
+			}
+			if err != nil || frags[s.Frag] == nil {
+				return harness.Failf("C19|CreateFragment|error", "fragment %d (%+v): %v", s.Frag, *spec, err)
+			}
+			if p.Loose {
+				fileOrder = append(fileOrder, s.Frag)
+			}
+		case "attach":
+			if p.Loose || frags[s.Frag] == nil || attached[s.Frag] || len(segs) == 0 {
+				return badStep()
+			}
+			segs[len(segs)-1].AddFragment(frags[s.Frag])
+			attached[s.Frag] = true
+		case "sample":
+			spec := &p.Frags[s.Frag]
+			inFrag := false
+			for _, k := range spec.Tracks {
+				inFrag = inFrag || k == s.Track
+			}
+			if frags[s.Frag] == nil || !inFrag || s.Sample == nil || len(s.Sample.Data) == 0 || (spec.Multi && !s.ToTrack) {
+				return badStep()
+			}
+			if s.ToTrack {
+				if err := frags[s.Frag].AddFullSampleToTrack(fullSample(s.Sample), uint32(s.Track+1)); err != nil {
+					return harness.Failf("C19|AddFullSampleToTrack|error for a track of the init", "fragment %d track %d: %v", s.Frag, s.Track+1, err)
+				}
+			} else {
+				frags[s.Frag].AddFullSample(fullSample(s.Sample))
+			}
+			added[key{s.Frag, s.Track}] = append(added[key{s.Frag, s.Track}], s.Sample)
+			nAdded[s.Frag]++
+		default:
+			return badStep()
+		}
+	}
+	for i := range frags {
+		if frags[i] == nil || nAdded[i] == 0 || (!p.Loose && !attached[i]) {
+			return harness.Failf("harness|c19|bad-case", "fragment %d not created, empty or not attached", i)
+		}
+	}
+	var buf bytes.Buffer
+	if err := init.Encode(&buf); err != nil {
+		return harness.Failf("C19|InitSegment.Encode|error", "%v", err)
+	}
+	var segSizes []int // fragments per segment, segments without fragments write nothing but their styp
+	if p.Loose {
+		for _, fi := range fileOrder {
+			before := buf.Len()
+			if err := frags[fi].Encode(&buf); err != nil {
+				return harness.Failf("C19|Fragment.Encode|error", "fragment %d: %v", fi, err)
+			}
+			if frags[fi].Size() != uint64(buf.Len()-before) {
+				return harness.Failf("C19|Fragment.Size|differs from encoded length", "fragment %d: Size %d, encoded %d", fi, frags[fi].Size(), buf.Len()-before)
+			}
+		}
+	} else {
+		for si, seg := range segs {
+			before := buf.Len()
+			if err := seg.Encode(&buf); err != nil {
+				return harness.Failf("C19|MediaSegment.Encode|error", "segment %d: %v", si, err)
+			}
+			if seg.Size() != uint64(buf.Len()-before) {
+				return harness.Failf("C19|MediaSegment.Size|differs from encoded length", "segment %d: Size %d, encoded %d", si, seg.Size(), buf.Len()-before)
+			}
+			segSizes = append(segSizes, len(seg.Fragments))
+			for _, fr := range seg.Fragments {
+				for fi := range frags {
+					if frags[fi] == fr {
+						fileOrder = append(fileOrder, fi)
+					}
+				}
+			}
+		}
+	}
+	if len(fileOrder) != nf {
+		return harness.Failf("C19|MediaSegment.AddFragment|segments do not hold the fragments attached", "%d of %d", len(fileOrder), nf)
+	}
+	// expected samples of a (fragment, track): as added; the decode time of the first one is the base media decode
+	// time of the track fragment, the following ones continue from it by the durations
+	expect := func(fi, k int) []mp4.FullSample {
+		var out []mp4.FullSample
+		var t uint64
+		for j, s := range added[key{fi, k}] {
+			fs := fullSample(s)
+			if j == 0 {
+				t = s.DecodeTime
+			}
+			fs.DecodeTime = t
+			t += uint64(s.Dur)
+			out = append(out, fs)
+		}
+		return out
+	}
+	file, err := mp4.DecodeFile(bytes.NewReader(buf.Bytes()))
+	if err != nil {
+		return harness.Failf("C19|DecodeFile|error on init + fragments", "%v", err)
+	}
+	var got []*mp4.Fragment
+	for _, s := range file.Segments {
+		got = append(got, s.Fragments...)
+	}
+	if file.Init == nil || !file.IsFragmented() || len(got) != nf {
+		return harness.Failf("C19|DecodeFile|init + fragments not recognised", "init %v fragmented %v fragments %d, written %d", file.Init != nil, file.IsFragmented(), len(got), nf)
+	}
+	if !p.Loose && p.Styp {
+		// every media segment starts with its styp box: the decoded file must show the same grouping
+		if len(file.Segments) != len(segSizes) {
+			return harness.Failf("C19|DecodeFile|media segments differ from those written", "%d segments, written %d", len(file.Segments), len(segSizes))
+		}
+		for si, s := range file.Segments {
+			if s.Styp == nil || len(s.Fragments) != segSizes[si] {
+				return harness.Failf("C19|DecodeFile|media segments differ from those written", "segment %d: styp %v, %d fragments, written %d", si, s.Styp != nil, len(s.Fragments), segSizes[si])
+			}
+		}
+	}
+	for pos, fi := range fileOrder {
+		fr := got[pos]
+		if fr.Moof == nil || fr.Moof.Mfhd == nil || fr.Moof.Mfhd.SequenceNumber != c.SeqNr+uint32(fi) {
+			return harness.Failf("C19|DecodeFile|fragment sequence number differs from the one supplied", "fragment at position %d: want %d", pos, c.SeqNr+uint32(fi))
+		}
+		for k := 0; k < n; k++ {
+			trex, ok := file.Init.Moov.Mvex.GetTrex(uint32(k + 1))
+			if !ok {
+				return harness.Failf("C19|mvex|GetTrex does not return the track's trex", "decoded, track %d", k+1)
+			}
+			gs, err := fr.GetFullSamples(trex)
+			if err != nil {
+				return harness.Failf("C19|Fragment.GetFullSamples|error", "fragment %d track %d: %v", fi, k+1, err)
+			}
+			want := expect(fi, k)
+			if len(gs) != len(want) {
+				if len(want) == 0 {
+					return harness.Failf("C19|Fragment.GetFullSamples|samples for a track that is not in the fragment", "fragment %d track %d: %d", fi, k+1, len(gs))
+				}
+				return harness.Failf("C19|Fragment.GetFullSamples|samples differ from those added", "fragment %d track %d: %d samples, added %d", fi, k+1, len(gs), len(want))
+			}
+			for j := range want {
+				if gs[j].Sample != want[j].Sample || gs[j].DecodeTime != want[j].DecodeTime || !bytes.Equal(gs[j].Data, want[j].Data) {
+					return harness.Failf("C19|Fragment.GetFullSamples|samples differ from those added", "fragment %d track %d sample %d: got %+v, added %+v", fi, k+1, j, gs[j], want[j])
+				}
+			}
+		}
+	}
+	// the harness' own reader on the same bytes
+	pr, err := fragbuild.Read(buf.Bytes())
+	if err != nil {
+		return harness.Failf("C19|independent reader|init + fragments not readable", "%v", err)
+	}
+	if len(pr.Moofs) != nf {
+		return harness.Failf("C19|encoded fragments|number of moof boxes differs from the fragments written", "%d, written %d", len(pr.Moofs), nf)
+	}
+	for pos, fi := range fileOrder {
+		mo := &pr.Moofs[pos]
+		if mo.Seq != c.SeqNr+uint32(fi) {
+			return harness.Failf("C19|encoded fragments|sequence number differs from the one supplied", "moof %d: %d, want %d", pos, mo.Seq, c.SeqNr+uint32(fi))
+		}
+		for k := 0; k < n; k++ {
+			gs, want := mo.TrackSamples(uint32(k+1)), expect(fi, k)
+			if len(gs) != len(want) {
+				return harness.Failf("C19|encoded fragments|number of samples differs from those added", "fragment %d track %d: %d, want %d", fi, k+1, len(gs), len(want))
+			}
+			for j, w := range want {
+				if g := gs[j]; g.Dur != w.Dur || g.Flags != w.Flags || g.Cto != int64(w.CompositionTimeOffset) || g.DecodeTime != w.DecodeTime || !bytes.Equal(g.Data, w.Data) {
+					return harness.Failf("C19|encoded fragments|samples differ from those added", "fragment %d track %d sample %d: %+v, added %+v", fi, k+1, j, g, w)
+				}
+			}
+		}
+	}
+	if !p.Loose && p.Styp && len(pr.Styps) != len(segs) {
+		return harness.Failf("C19|encoded fragments|number of styp boxes differs from the media segments written", "%d, written %d", len(pr.Styps), len(segs))
+	}
+	return nil
+}
+
 // ---------------------------------------------------------------------------------------------
 // the property
 
@@ -830,14 +1270,8 @@ func classify(c *initCase) (bool, []string) {
 			cl = append(cl, s)
 		}
 	}
-	for i := range c.Ops {
-		op := &c.Ops[i]
+	desc := func(op *descSpec) {
 		add("codec-" + op.Codec)
-		add("mediatype-" + op.MediaType)
-		add(langShape(op.Lang))
-		if len(op.Lang) != 3 {
-			nt = true
-		}
 		switch op.Codec {
 		case "avc", "hevc":
 			add(fmt.Sprintf("entry-%s-ps%v", op.SampleEntry, op.IncludePS))
@@ -850,6 +1284,15 @@ func classify(c *initCase) (bool, []string) {
 			}
 			if op.Width%8 != 0 || op.Height%8 != 0 {
 				add(op.Codec + "-cropped-size-not-multiple-of-8")
+			}
+			if op.Width%2 != 0 || op.Height%2 != 0 {
+				add(op.Codec + "-cropped-size-odd")
+			}
+			if op.Width > 4096 || op.Height > 4096 {
+				add(op.Codec + "-size-above-4096")
+			}
+			if len(op.SPS[0]) > 64 {
+				add(op.Codec + "-sps-longer-than-64-bytes")
 			}
 		case "aac":
 			add(fmt.Sprintf("aac-objtype-%d", op.AACObjType))
@@ -872,16 +1315,192 @@ func classify(c *initCase) (bool, []string) {
 			}
 		}
 	}
+	for i := range c.Ops {
+		op := &c.Ops[i]
+		add("mediatype-" + op.MediaType)
+		add(langShape(op.Lang))
+		if len(op.Lang) != 3 {
+			nt = true
+		}
+		desc(&op.descSpec)
+	}
+	// the init-building history
+	if len(c.Order) == 0 {
+		add("history-canonical-order")
+	} else {
+		nt = true
+		added := 0
+		sets := make([][]step, len(c.Ops))
+		addsSince := make([]int, len(c.Ops)) // AddEmptyTrack calls between the track's own and its first Set call
+		for _, s := range c.Order {
+			if s.Op == "add" {
+				for k := 0; k < added; k++ {
+					if len(sets[k]) == 0 {
+						addsSince[k]++
+					}
+				}
+				added++
+				continue
+			}
+			if len(sets[s.Track]) == 0 && addsSince[s.Track] > 0 {
+				add("history-set-after-later-tracks-were-added")
+				if addsSince[s.Track] >= 3 {
+					add("history-set-after-3-or-more-later-adds")
+				}
+			}
+			if s.Track != added-1 {
+				add("history-set-on-earlier-track")
+			}
+			sets[s.Track] = append(sets[s.Track], s)
+			if s.Alt {
+				desc(c.Ops[s.Track].Alt)
+			}
+		}
+		allAddsFirst := true
+		for i, s := range c.Order {
+			allAddsFirst = allAddsFirst && (s.Op == "add") == (i < len(c.Ops))
+		}
+		if allAddsFirst && len(c.Ops) > 1 {
+			add("history-all-tracks-added-before-first-set")
+		}
+		for k, ss := range sets {
+			op := &c.Ops[k]
+			switch {
+			case len(ss) == 0 && op.Codec != "none":
+				add("history-track-never-described")
+			case len(ss) >= 2:
+				add("history-set-twice")
+				a, b := &op.descSpec, &op.descSpec
+				if ss[0].Alt {
+					a = op.Alt
+				}
+				if ss[1].Alt {
+					b = op.Alt
+				}
+				switch {
+				case ss[0].Alt == ss[1].Alt:
+					add("history-set-twice-same-arguments")
+				case a.Codec != b.Codec:
+					add("history-set-twice-other-codec")
+				default:
+					add("history-set-twice-same-codec-other-arguments")
+				}
+				if (a.Codec == "avc" || a.Codec == "hevc") && (a.Width != b.Width || a.Height != b.Height) {
+					add("history-set-twice-other-picture-size")
+				}
+			case len(ss) == 1 && ss[0].Alt:
+				add("history-only-second-descriptor-set")
+			}
+		}
+	}
+	// the fragment-building history
+	if p := c.Frags; p == nil {
+		add("frags-fixed-history")
+	} else {
+		nt = true
+		add(fmt.Sprintf("frags-%d", len(p.Frags)))
+		nseg := 0
+		var createOrder, attachOrder []int
+		type key struct{ f, k int }
+		last := map[int]int{} // fragment -> track of the latest sample added to it
+		runs := map[key]int{} // (fragment, track) -> number of runs its samples form
+		perFrag := map[int]int{}
+		attachedAt := map[int]bool{}
+		for _, s := range p.Steps {
+			switch s.Op {
+			case "seg":
+				nseg++
+			case "frag":
+				createOrder = append(createOrder, s.Frag)
+			case "attach":
+				attachOrder = append(attachOrder, s.Frag)
+				attachedAt[s.Frag] = true
+				if perFrag[s.Frag] == 0 {
+					add("frag-attached-before-first-sample")
+				}
+			case "sample":
+				if t, ok := last[s.Frag]; !ok || t != s.Track {
+					runs[key{s.Frag, s.Track}]++
+				}
+				last[s.Frag] = s.Track
+				perFrag[s.Frag]++
+				if attachedAt[s.Frag] {
+					add("frag-sample-added-after-attach")
+				}
+				if !p.Frags[s.Frag].Multi {
+					add(fmt.Sprintf("frag-single-track-totrack-%v", s.ToTrack))
+				}
+			}
+		}
+		if p.Loose {
+			add("frags-loose")
+		} else {
+			add(fmt.Sprintf("frags-segments-%d-styp-%v", nseg, p.Styp))
+			for i := range attachOrder {
+				if i < len(createOrder) && attachOrder[i] != createOrder[i] {
+					add("frag-attach-order-differs-from-creation-order")
+				}
+			}
+		}
+		for i := 1; i < len(createOrder); i++ {
+			if createOrder[i] < createOrder[i-1] {
+				add("frag-created-out-of-sequence-number-order")
+			}
+		}
+		for i, f := range p.Frags {
+			if f.Multi {
+				add(fmt.Sprintf("frag-multitrack-%d-tracks", len(f.Tracks)))
+				for _, k := range f.Tracks {
+					if runs[key{i, k}] == 0 {
+						add("frag-multitrack-track-without-samples")
+					}
+				}
+			} else {
+				add("frag-singletrack")
+			}
+			if perFrag[i] >= 3 {
+				add("frag-3-or-more-samples")
+			}
+		}
+		for _, r := range runs {
+			if r > 1 {
+				add("frag-several-truns-for-one-track")
+			}
+		}
+		// samples of different fragments added alternately
+		prev, switches := -1, 0
+		for _, s := range p.Steps {
+			if s.Op == "sample" {
+				if prev >= 0 && prev != s.Frag {
+					switches++
+				}
+				prev = s.Frag
+			}
+		}
+		if switches >= len(p.Frags) && len(p.Frags) > 1 {
+			add("frag-samples-interleaved-across-fragments")
+		}
+	}
 	return nt, cl
 }
 
 func TestInitHistories(t *testing.T) {
 	harness.RunRapid(t, "inithistory", func(rt *rapid.T) {
-		c := genCase(rt)
+		c, genClasses := genCase(rt)
 		raw, _ := json.Marshal(c)
 		nt, cl := classify(&c)
+		seen := map[string]bool{}
+		for _, l := range cl {
+			seen[l] = true
+		}
+		for _, l := range genClasses { // labels of the parameter-set trees (esgen), once per case
+			if !seen[l] {
+				seen[l] = true
+				cl = append(cl, l)
+			}
+		}
 		harness.Rec.Case(nt, raw, cl...)
-		if nt && harness.Rec.WantSample() && len(raw) < 3000 {
+		if nt && harness.Rec.WantSample() && len(raw) < 6000 {
 			harness.Rec.Sample(map[string]interface{}{"kind": "inithistory", "case": c})
 		}
 		var st stats
@@ -894,6 +1513,14 @@ func TestInitHistories(t *testing.T) {
 		for _, name := range names {
 			harness.Rec.Exclude(name)
 			harness.Rec.ClassN("skipped-relations:"+name, st.skipped[name])
+		}
+		names = names[:0]
+		for name := range st.observed {
+			names = append(names, name)
+		}
+		sort.Strings(names)
+		for _, name := range names {
+			harness.Rec.Class("observed:" + name)
 		}
 		// one case in 16: the JSON form of the case gives the same verdict (replay files reproduce what was seen)
 		if harness.Hash(raw)%16 == 0 {
